@@ -448,7 +448,7 @@ def top_blocks(fx):
 def c05(chk, tier):
     import rel
     thorough = tier == "thorough"
-    fxs = load(tier, limit=None if thorough else 140, salt=5)
+    fxs = load(tier, limit=None, salt=5)
     rnd = random.Random(seed() * 31 + 5)
     cases, meta = [], {}
     for n, fx in enumerate(fxs):
@@ -766,7 +766,35 @@ def c18(chk, tier):
                 kw = {"banned": ban[:1], "banned2": ban[1:]}
             cases.append(case(cid, fx.files, fx.root, **kw))
             meta[cid] = (fx, ban, [], used)
+    # the same fixtures without their JSIGHT line (rejected for that) with JSIGHT - which does not occur any more - and
+    # other unused kinds banned: the rejection is the one given without the option
+    nj = {}
+    for n, fx in enumerate(fxs):
+        if len(fx.files) != 1 or n % (1 if thorough else 6):
+            continue
+        m = re.search(rb"(?m)^[ \t]*JSIGHT[^\r\n]*(\r\n|\r|\n)", fx.data)
+        if not m:
+            continue
+        data = fx.data[:m.start()] + fx.data[m.end():]
+        kinds_used = {nd["k"] for nd, _, _ in preorder(fx.forest)} - {"JSIGHT"}
+        free = [k for k in ALL_KINDS if k not in kinds_used and k != "INCLUDE"]
+        ban = ["JSIGHT"] + rnd.sample([k for k in free if k != "JSIGHT"], rnd.randrange(0, 3))
+        cases.append(case("nj%d_a" % n, {fx.root: data}, fx.root))
+        cases.append(case("nj%d_b" % n, {fx.root: data}, fx.root, banned=ban))
+        nj[n] = (fx, ban, data)
     obs = harness("run", cases)
+    for n, (fx, ban, data) in nj.items():
+        a, b = obs["nj%d_a" % n], obs["nj%d_b" % n]
+        chk.evaluations += 1
+        chk.traces += 1
+        chk.nontrivial.add(("fx-nojsight", fx.name, tuple(ban)))
+        ka = (a["outcome"], (a.get("err") or {}).get("index"), a.get("json"))
+        kb = (b["outcome"], (b.get("err") or {}).get("index"), b.get("json"))
+        if ka != kb:
+            sig = {"ban": "none", "form": "fixture-without-jsight", "fixture": fx.name, "what": "unrelated ban changed result"}
+            chk.violation("no banned kind occurs (banned %s, the document has no JSIGHT directive) but the result differs from the run without the option: %s vs %s | fixture %s without its JSIGHT line" % (
+                ban, rel.describe(a), rel.describe(b), fx.name),
+                {"kind": "fxban", "fixture": fx.name, "root": fx.root, "ban": ban, "occurs": [], "files_a": {fx.root: b64(data)}, "signature": sig}, sig)
     hit = 0
     for cid, (fx, ban, occurs, used) in meta.items():
         a, b = fx.obs, obs[cid]
@@ -848,6 +876,15 @@ def _mirror_blocks(fx, rnd, count):
             continue
         path = "/" + "/".join(out)
         res.append(("GET", ["GET %s // mirror" % path, "  200 any"], [("interactions", "http GET " + path), ("tags", "@vfmirror%d" % k)]))
+    # a first segment that differs from an existing one only in letter case is another segment with another tag
+    allp = sorted({v.get("path", "") for v in inter.values()})
+    firsts = {p.split("/")[1] for p in allp if p.startswith("/") and len(p.split("/")) > 1}
+    for seg in sorted(firsts):
+        sw = seg.swapcase()
+        if re.match(r"^[A-Za-z]+$", seg) and sw != seg and sw not in firsts and ("@" + sw) not in (json.loads(fx.obs["json"]).get("tags") or {}):
+            path = "/%s/vfcase" % sw
+            res.append(("GET", ["GET %s // other case" % path, "  200 any"], [("interactions", "http GET " + path), ("tags", "@" + sw)]))
+            break
     return res
 
 
@@ -1040,7 +1077,7 @@ def c11(chk, tier):
                 nd = bynode[b][0]
                 if not nd["c"] and (fx.lex[k + 1][0] if k + 1 < len(fx.lex) else -1) != OPEN:
                     inside = [x for x in fx.lex if b <= x[1] < end]
-                    if not (inside and inside[-1][0] == TEXT):      # bare text would swallow nothing, but keep clear of it
+                    if True:
                         cands.append(("dup_child", kw, d[:end] + d[ls:end] + d[end:], [(ls, end + (end - ls) + 1)], ls))
                         # ... the first copy with an empty quoted parameter: two children all the same
                         pj = [x for x in fx.lex[k + 1:k + 3] if x[0] == PARAM and x[1] < line_end(d, b)]
